@@ -5,7 +5,7 @@ export CARGO_NET_OFFLINE=true CARGO_TARGET_DIR=/tmp/wt/target-shared
 out=/tmp/wt/confirm.tsv; : > $out
 for d in /tmp/wt/C*/; do
   id=$(basename $d)
-  for k in 1 2; do
+  for k in 1 2 3 4; do
     patch=$d/_out/patch$k.diff; demo=$d/_out/demo$k.rs
     [ -f "$patch" ] && [ -f "$demo" ] || continue
     cd $d && git checkout -q -- . && rm -f tests/demo_*.rs
